@@ -657,7 +657,7 @@ pub fn run(tier: &str) -> Result<Report, String> {
     let limit = if tier == "quick" { 20.0 } else { 300.0 };
     // (model, number of erased update functions, p_step, q_count)
     let models: Vec<(&str, u64, u64, u64)> = if tier == "quick" {
-        vec![("pystablemotifs-models/myeloid.aeon", 0, 1, 4), ("cell_division", 0, 6, 4), ("synthetic:chain60", 0, 1, 4), ("synthetic:pairs16chains", 0, 1, 3)]
+        vec![("pystablemotifs-models/myeloid.aeon", 0, 1, 4), ("cell_division", 0, 6, 4), ("synthetic:chain60", 0, 1, 4), ("synthetic:chain70", 0, 1, 4), ("synthetic:pairs16chains", 0, 1, 3)]
     } else {
         vec![
             ("pystablemotifs-models/myeloid.aeon", 0, 1, 10),
@@ -668,6 +668,7 @@ pub fn run(tier: &str) -> Result<Report, String> {
             ("pystablemotifs-models/EMT.aeon", 0, 2, 10),
             ("synthetic:chain60", 0, 1, 10),
             ("synthetic:chain58p", 0, 1, 10),
+            ("synthetic:chain70", 0, 1, 10),
             ("synthetic:pairs16", 0, 1, 6),
             ("synthetic:pairs16chains", 0, 1, 6),
         ]
